@@ -182,6 +182,40 @@ func sameBytes(a, b bson.D) bool {
 	return e1 == nil && e2 == nil && string(x) == string(y)
 }
 
+// boundaryGrid: $inc/$mul for every pair of integer boundary values in both integer kinds
+// (the promotion and overflow rules of MongoDB are exact on integers).
+func boundaryGrid() [][2]bson.D {
+	one := func(doc bson.D, op, path string, v interface{}) [2]bson.D {
+		return [2]bson.D{doc, {{Key: op, Value: bson.D{{Key: path, Value: v}}}}}
+	}
+	vals := []interface{}{int32(math.MinInt32), int32(math.MaxInt32), int32(-1), int32(0), int32(1), int32(2), int32(-2), int32(65536), int32(46341),
+		int64(math.MinInt64), int64(math.MaxInt64), int64(-1), int64(0), int64(1), int64(2), int64(-2), int64(1 << 31), int64(-(1 << 31)), int64(1 << 62), int64(-(1 << 62)),
+		int64(math.MaxInt64 - 1), int64(math.MinInt64 + 1), int64(3037000500), int64(math.MaxInt32), int64(math.MinInt32)}
+	var out [][2]bson.D
+	for _, x := range vals {
+		for _, y := range vals {
+			out = append(out, one(bson.D{{Key: "a", Value: x}}, "$inc", "a", y), one(bson.D{{Key: "a", Value: x}}, "$mul", "a", y))
+		}
+	}
+	return out
+}
+
+// typeOnlyCases: updates whose only effect is a change of numeric kind (the bytes change, the value does not).
+func typeOnlyCases() [][2]bson.D {
+	one := func(doc bson.D, op, path string, v interface{}) [2]bson.D {
+		return [2]bson.D{doc, {{Key: op, Value: bson.D{{Key: path, Value: v}}}}}
+	}
+	a := func(v interface{}) bson.D { return bson.D{{Key: "a", Value: v}} }
+	return [][2]bson.D{
+		one(a(int32(1)), "$set", "a", int64(1)), one(a(int32(1)), "$set", "a", float64(1)), one(a(int64(5)), "$set", "a", dec("5")),
+		one(a(dec("5.0")), "$set", "a", dec("5")), one(a(float64(0)), "$set", "a", math.Copysign(0, -1)),
+		one(a(int32(1)), "$inc", "a", float64(0)), one(a(int32(1)), "$inc", "a", int64(0)), one(a(int32(3)), "$mul", "a", int64(1)),
+		one(a(int32(3)), "$mul", "a", float64(1)), one(a(int64(3)), "$mul", "a", dec("1")), one(a(int32(1)), "$max", "a", int64(1)),
+		one(a(int32(1)), "$min", "a", float64(1)), one(a(bson.A{int32(1), int32(2)}), "$set", "a", bson.A{int64(1), int32(2)}),
+		one(a(bson.D{{Key: "b", Value: int32(1)}}), "$set", "a.b", int64(1)), one(a(bson.A{int32(1)}), "$addToSet", "a", int64(1)),
+	}
+}
+
 func fixedCases() [][2]bson.D {
 	one := func(doc bson.D, op, path string, v interface{}) [2]bson.D {
 		return [2]bson.D{doc, {{Key: op, Value: bson.D{{Key: path, Value: v}}}}}
@@ -228,8 +262,17 @@ func main() {
 	g := gen.New(seed)
 	trace = util.CreateNDJSON(filepath.Join(dir, "trace.ndjson"))
 	errs, oks, idem, idemViol, modChecks := 0, 0, 0, 0, 0
-	for _, fc := range fixedCases() {
+		for _, fc := range fixedCases() {
 		record(fc[0], fc[1], nil, false)
+	}
+	for _, fc := range boundaryGrid() {
+		record(fc[0], fc[1], nil, false)
+	}
+	for _, fc := range typeOnlyCases() {
+		res := record(fc[0], fc[1], nil, false)
+		if !res.pnc && driverCheck(fc[0], fc[1], nil, res) {
+			modChecks++
+		}
 	}
 	for i := 0; i < n; i++ {
 		doc := g.Doc(2, g.P(10))
